@@ -59,6 +59,19 @@
   { smooth::Map<smooth::Galilei<S>> G(g); G.r1_t() = Eigen::Map<const Eigen::Matrix<S, 1, 1>>(v); }                    \
   extern "C" void P##sek2_set_so3(S * g, const S * q)                                                                 \
   { smooth::Map<smooth::SE_K_3<S, 2>> G(g); G.so3() = smooth::Map<const smooth::SO3<S>>(q); }                          \
+  extern "C" void P##sek2_set_r3_rt1(S * g, const S * v)                                                              \
+  { smooth::Map<smooth::SE_K_3<S, 2>> G(g); G.r3(1) = Eigen::Map<const Eigen::Matrix<S, 3, 1>>(v); }                   \
+  extern "C" void P##sek2_set_r3_rt0(S * g, const S * v)                                                              \
+  { smooth::Map<smooth::SE_K_3<S, 2>> G(g); G.r3(0) = Eigen::Map<const Eigen::Matrix<S, 3, 1>>(v); }                   \
+  extern "C" void P##sek2_set_r3_t1(S * g, const S * v)                                                               \
+  { smooth::Map<smooth::SE_K_3<S, 2>> G(g); G.template r3<1>() = Eigen::Map<const Eigen::Matrix<S, 3, 1>>(v); }        \
+  extern "C" void P##sek4_set_r3_rt3(S * g, const S * v)                                                              \
+  { smooth::Map<smooth::SE_K_3<S, 4>> G(g); G.r3(3) = Eigen::Map<const Eigen::Matrix<S, 3, 1>>(v); }                   \
+  extern "C" void P##sek4_set_r3_rt1(S * g, const S * v)                                                              \
+  { smooth::SE_K_3<S, 4> G; G.coeffs() = Eigen::Map<const Eigen::Matrix<S, 16, 1>>(g); G.r3(1) = Eigen::Map<const Eigen::Matrix<S, 3, 1>>(v); \
+    Eigen::Map<Eigen::Matrix<S, 16, 1>> O(g); O = G.coeffs(); }                                                        \
+  extern "C" void P##sek2_get_r3_rt1(const S * g, S * v)                                                              \
+  { smooth::Map<const smooth::SE_K_3<S, 2>> G(g); Eigen::Map<Eigen::Matrix<S, 3, 1>> V(v); V = G.r3(1); }              \
   extern "C" void P##b1_set_part0(S * g, const S * q)                                                                 \
   { using B = smooth::Bundle<smooth::SO3<S>, Eigen::Matrix<S, 2, 1>, smooth::SE2<S>>;                                  \
     smooth::Map<B> G(g); G.template part<0>() = smooth::Map<const smooth::SO3<S>>(q); }                               \
